@@ -54,6 +54,7 @@ type scenario struct {
 	Cause      bool     `json:"cause"`       // the caller's context is cancelled with a cause of its own (context.WithCancelCause)
 	FailPaused bool     `json:"fail_paused"` // the store call held at the pause fails when it is let go (a store that honours the context the caller or Close has cancelled meanwhile)
 	NoSections bool     `json:"no_sections"` // the MetaStore describes every block without a filter section (BloomFilterSize 0): nothing to read, every block survives
+	Uni        bool     `json:"uni"`         // the whole scenario (probe included) runs on one P: what a worker puts back into a pool is what the next taker gets
 	Queries    int      `json:"queries"`     // multi: concurrent queries
 	Stalled    int      `json:"stalled"`     // multi: how many of them never call Next
 	GateReads  bool     `json:"gate_reads"`
@@ -106,6 +107,7 @@ type qobs struct {
 	Stats                  statsObs `json:"stats"`
 	Stalled                bool     `json:"stalled"`
 	CorruptScanned         bool     `json:"corrupt_scanned"` // the corrupted block has a processed stats entry
+	KeptChanged            int      `json:"kept_changed"`    // rows the consumer held on to that changed after they were delivered (checked after the probe query has scanned the same blocks)
 }
 
 type statsObs struct {
@@ -629,6 +631,64 @@ type runner struct {
 	falseCh chan struct{}
 	stop    chan struct{} // take:k / stall consumers wait here before going on
 	closeWG sync.WaitGroup
+	kept    []map[string]any // rows the consumer holds on to
+	keptWas []string         // their JSON at delivery
+}
+
+// intruders: other engines' blocks of the same sizes as the scenario's, holding different rows. Scanning them after a scenario
+// makes a buffer the scenario's query gave back too early visible: the rows it still backs then read as somebody else's.
+var intruders = map[string]*bs.BloomSearchEngine{}
+
+func scanIntruder(sc scenario) {
+	if sc.Big > 0 || sc.Rows*sc.Blocks > 4000 {
+		return
+	}
+	key := fmt.Sprintf("%d|%d|%v", sc.Blocks, sc.Rows, sc.Match)
+	eng := intruders[key]
+	if eng == nil {
+		cfg := cfgFor(2)
+		var err error
+		eng, err = bs.NewBloomSearchEngine(cfg, bs.NewMemoryMetaStore(), h.NewMemData())
+		if err != nil {
+			return
+		}
+		eng.Start()
+		var rows []map[string]any
+		for b := 1; b <= sc.Blocks; b++ {
+			for r := 1; r <= sc.Rows; r++ {
+				// same shape and lengths as the scenario's rows, other content
+				row := map[string]any{"id": fmt.Sprintf("g%db%dr%d", 9, b, r), "p": fmt.Sprintf("p%d", b), "pad": strings.Repeat("y", 8)}
+				if sc.Match == "all" {
+					row["m"] = "zzz"
+				}
+				rows = append(rows, row)
+			}
+		}
+		done := make(chan error, 1)
+		if eng.IngestRows(context.Background(), rows, done) != nil || eng.Flush(context.Background()) != nil || <-done != nil {
+			return
+		}
+		intruders[key] = eng
+	}
+	for i := 0; i < 2; i++ {
+		if res, err := eng.Query(context.Background(), bs.NewQuery().Build()); err == nil {
+			for res.Next() {
+			}
+			res.Close()
+		}
+	}
+}
+
+// keptChanged counts the held rows that no longer say what they said when Next handed them over.
+func (r *runner) keptChanged() int {
+	n := 0
+	for i, row := range r.kept {
+		b, err := json.Marshal(row)
+		if err != nil || string(b) != r.keptWas[i] {
+			n++
+		}
+	}
+	return n
 }
 
 func classify(err error) string {
@@ -644,6 +704,12 @@ func classify(err error) string {
 
 func (r *runner) recordRow(row map[string]any) {
 	id, _ := row["id"].(string)
+	// the first rows are kept by the caller, with what they said when they were handed over
+	if len(r.kept) < 8 {
+		if b, err := json.Marshal(row); err == nil {
+			r.kept, r.keptWas = append(r.kept, row), append(r.keptWas, string(b))
+		}
+	}
 	r.mu.Lock()
 	if _, ok := r.w.blockOf[id]; !ok {
 		r.o.Alien++
@@ -814,6 +880,10 @@ func runSolo(sc scenario, scratch string, guard *h.StdioGuard) (o obs) {
 	qrec.begin()
 	defer qrec.end(sc)
 	var armed atomic.Bool
+	if sc.Uni && sc.HookCancel == "" {
+		old := runtime.GOMAXPROCS(1)
+		defer runtime.GOMAXPROCS(old)
+	}
 	if sc.HookCancel != "" {
 		old := runtime.GOMAXPROCS(1)
 		defer runtime.GOMAXPROCS(old)
@@ -967,6 +1037,12 @@ func runSolo(sc scenario, scratch string, guard *h.StdioGuard) (o obs) {
 		probe(&o, sc, w)
 	} else {
 		o.ProbeHeld, o.ProbeWant = -1, -1
+	}
+	if len(r.kept) > 0 {
+		scanIntruder(sc)
+	}
+	if len(o.Qs) > 0 {
+		o.Qs[0].KeptChanged = r.keptChanged()
 	}
 	return
 }
@@ -1259,8 +1335,11 @@ func runMulti(sc scenario, scratch string, guard *h.StdioGuard) (o obs) {
 	o.InReadMax, o.InIOMax = inReadMax, inIOMax
 	qrec.end(sc)
 	probe(&o, sc, w)
-	for _, r := range rs {
+	for i, r := range rs {
 		r.cancel()
+		if i < len(o.Qs) {
+			o.Qs[i].KeptChanged = r.keptChanged()
+		}
 	}
 	return
 }
@@ -1487,6 +1566,14 @@ func generate(tier string, seed int64, scratch string, guard *h.StdioGuard) []sc
 				sc.Pause, sc.HookCancel, sc.Consumer, sc.After = fmt.Sprintf("%s#%d", k, n), "released", "drain", []string{"next", "close"}
 				add(sc)
 			}
+		}
+	}
+	// a consumer that keeps the rows it took, ends the query early mid-scan, and looks at them again after other scans have
+	// run - on one P, so that a buffer a worker gives back is the one the next scan takes
+	for _, as := range [][]string{{"close"}, {"cancel"}} {
+		for _, cons := range []string{"take:1", "take:3", "take:70"} {
+			sc := scenario{N: 2, Files: 1, Blocks: 2, Rows: 800, Bloom: false, Match: "all", Consumer: cons, Sat: as, Uni: true, After: []string{"next", "close"}}
+			add(sc)
 		}
 	}
 	// several queries sharing the budget, every read held until quiescence
